@@ -379,6 +379,14 @@ func tagCompareLoops(r *Report, rt *Routine, flow *FlowResult, a *xAnalysis, ver
 		}
 		for j := xb.start; j < xb.end && j < len(rt.Instrs); j++ {
 			in := rt.Instrs[j]
+			if len(in.Args) == 1 && (in.Op == "INCQ" || in.Op == "DECQ") && in.Args[0].Kind == OReg {
+				if in.Op == "INCQ" {
+					step[in.Args[0].Reg]++
+				} else {
+					step[in.Args[0].Reg]--
+				}
+				continue
+			}
 			if len(in.Args) != 2 {
 				continue
 			}
